@@ -21,7 +21,7 @@ MEDIA = {"absent": None, "image": "image", "sticker": "sticker", "audio": "audio
 CHILD_FLAGS = ["cSet", "cDelete", "cRemove", "cAdd", "cUpdate", "cSync", "cSubject", "cCreate", "cCount", "cIdentity", "cDirty", "cOffline", "cAccount"]
 
 
-UNPRESENTABLE = ["image", "contact", "location", "document", "audio", "video", "sticker", "protocol", "call"]
+UNPRESENTABLE = ["image", "contact", "location", "document", "audio", "video", "sticker", "protocol", "call", "future"]
 
 
 def unpresentable_payload(pseed):
@@ -38,6 +38,17 @@ def unpresentable_payload(pseed):
     if kind == "call":
         m.call.call_key = bytes(r.randrange(256) for _ in range(r.randint(1, 8)))
         return m.SerializeToString(), kind
+    if kind == "future":
+        # a content kind newer than the library's schema (a reaction, a poll: a field number the bundled proto does not have)
+        fno = r.choice([46, 49, 60, 1000])
+        body = bytes(r.randrange(256) for _ in range(r.randint(1, 12)))
+        tag, out = (fno << 3) | 2, bytearray()
+        while True:
+            out.append((tag & 0x7F) | (0x80 if tag > 0x7F else 0))
+            tag >>= 7
+            if not tag:
+                break
+        return bytes(out) + bytes([len(body)]) + body, "future:%d" % fno
     if kind == "protocol":
         k = m.protocol_message.key
         group = r.random() < 0.5
